@@ -36,6 +36,8 @@ def run(c):
         {"kind": "clonefail", "args": [], "timeout_ms": 1000},
         {"kind": "builddestroy", "args": [], "timeout_ms": 3000},
         {"kind": "buildfail", "args": [], "timeout_ms": 3000},
+        {"kind": "buildfail_conf", "args": [], "timeout_ms": 3000},
+        {"kind": "buildfail_init", "args": [], "timeout_ms": 3000},
     ]
     cases = []
     nh = 4 if c.quick() else 12
@@ -47,7 +49,8 @@ def run(c):
             ops = [dict(x) for x in pool] + ops[len(pool):]
         cases.append({"id": h, "token": "tk%d_%d_%d" % (os.getpid(), c.seed, h), "shared_env": True, "ops": ops})
     cases.append({"id": nh, "token": "tk%d_%d_b" % (os.getpid(), c.seed), "shared_env": False,
-                  "ops": [{"kind": "buildfail", "args": [], "timeout_ms": 3000}] * 3 + [{"kind": "builddestroy", "args": [], "timeout_ms": 3000}] * 3})
+                  "ops": [{"kind": "buildfail", "args": [], "timeout_ms": 3000}] * 3 + [{"kind": "buildfail_conf", "args": [], "timeout_ms": 3000}] * 3 +
+                         [{"kind": "buildfail_init", "args": [], "timeout_ms": 3000}] * 2 + [{"kind": "builddestroy", "args": [], "timeout_ms": 3000}] * 3})
     obs = c.run_harness(exe, cases, env=env, timeout=1800)
     for x, o in zip(cases, obs):
         if "harness_err" in o:
